@@ -153,7 +153,9 @@ class Gen:
         if packed:
             # the spellings attr.c accepts for the one attribute it implements (GNU and C23 syntax, with and without underscores)
             attr = " " + self.draw(st.sampled_from(["__attribute__((packed))", "__attribute__((packed))", "__attribute__((__packed__))", "[[gnu::packed]]", "[[__gnu__::__packed__]]",
-                                                    "[[gnu::__packed__]]", "__attribute__((unused, packed))", "[[maybe_unused]] [[gnu::packed]]"]))
+                                                    "[[gnu::__packed__]]", "__attribute__((unused, packed))", "[[maybe_unused]] [[gnu::packed]]", "PKD", "PKD", "PKB",
+                                                    "__attribute__((packed, unused))", "[[gnu::packed]] [[maybe_unused]]", "__attribute__((packed)) __attribute__((unused))",
+                                                    "[[gnu::packed, deprecated(\"x\")]]", "__attribute__((__packed__, __may_alias__))"]))
             td.flags.add("packed")
         td.nmembers = len(members)
         td.text = "%s%s %s { %s }" % (kind, attr, tag, " ".join(members))
@@ -220,4 +222,6 @@ def enums(draw):
         # one enum cannot hold both negative values and values above LONG_MAX
         if any(v < 0 for v in vals) and any(v >= 1 << 63 for v in vals):
             vals = [v for v in vals if v < 1 << 63]
-    return {"fixed": fixed, "vals": vals}
+    # a fixed underlying type may be given by an earlier declaration and repeated or omitted in the definition
+    fwd = draw(st.sampled_from([None, None, "repeat", "omit"])) if fixed else None
+    return {"fixed": fixed, "vals": vals, "forward": fwd}
